@@ -18,6 +18,7 @@
 #include <blocc/string_reader.h>
 #include <blocc/verif_hook.h>
 #include <blocc/exception_parse.h>
+#include <blocc/plugin_manager.h>
 
 #include <condition_variable>
 #include <mutex>
@@ -482,6 +483,19 @@ int main(int argc, char ** argv)
   if (argc < 4) { fprintf(stderr, "usage: sched explore|replay|seq|fresh|free <prog> <nthreads> ...\n"); return 2; }
   const Prog * p = find_prog(argv[2]);
   if (!p) { fprintf(stderr, "unknown program %s\n", argv[2]); return 2; }
+  /* modules the host grants to its (untrusted) contexts: SCHED_UNBAN=name,name */
+  if (const char * ub = getenv("SCHED_UNBAN"))
+  {
+    std::string names(ub);
+    size_t b = 0;
+    while (b <= names.size())
+    {
+      size_t e = names.find(',', b);
+      if (e == std::string::npos) e = names.size();
+      if (e > b) bloc::PluginManager::instance().unbanPlugin(names.substr(b, e - b));
+      b = e + 1;
+    }
+  }
   int n = atoi(argv[3]);
   std::string cmd = argv[1];
   if (cmd == "seq")
